@@ -133,6 +133,16 @@ func runC08(p *Program, e *Engine, r *Result, tier string) {
 }
 
 // c08PathStores: every store to a watch's path field is built from the caller's spelling only.
+// mainFnByName: the function of the analysed package whose short name (as printed in paths) is name.
+func mainFnByName(a *An, name string) *ssa.Function {
+	for _, fn := range a.P.srcFuncs(a.P.Main) {
+		if shortFn(fn) == name {
+			return fn
+		}
+	}
+	return nil
+}
+
 func c08PathStores(a *An, tf *tableFacts, roots []*ssa.Function) {
 	ro := a.Ro
 	translatorNames := map[string]bool{}
@@ -161,7 +171,14 @@ func c08PathStores(a *An, tf *tableFacts, roots []*ssa.Function) {
 			}
 			seen[key] = true
 			var bad []string
+			// the value through phis and the returns of package-local helpers: every source is judged
 			rest := vp
+			if edges := valueEdges(v.Ctx, st.Val, dnfTrue()); len(edges) > 1 {
+				rest = ""
+				for _, e := range edges {
+					rest += " " + stripIDs(e.Ctx.path(e.V))
+				}
+			}
 			for {
 				i := strings.Index(rest, "call:")
 				if i < 0 {
@@ -184,9 +201,23 @@ func c08PathStores(a *An, tf *tableFacts, roots []*ssa.Function) {
 				name := rest[:j]
 				switch {
 				case name == "path/filepath.Clean" || name == "len":
+				case name == "strings.TrimRight" || name == "strings.TrimSuffix" || name == "golang.org/x/sys/unix.ByteSliceToString":
+					// the entry name taken from the kernel's record (judged by C08.3), part of an event's name
 				case translatorNames[name]:
 					// the Name of an event built by the translator: C08.1 shows it is the name the handler passed in
 				default:
+					// a package-local helper is transparent when nothing it reaches resolves or absolutises a path
+					if hf := mainFnByName(a, name); hf != nil {
+						clean := true
+						for _, u := range a.E.Walk(hf, WalkOpts{NoCond: true}).Visits {
+							if cal := visitCallee(u); cal != nil && resolvingFns[fullName(cal)] {
+								clean = false
+							}
+						}
+						if clean {
+							continue
+						}
+					}
 					bad = append(bad, name)
 				}
 			}
